@@ -2314,7 +2314,9 @@ impl<'source> Parser<'source> {
     }
 
     fn consume_throw_expression(&mut self) -> Result<AstIndex> {
-        self.consume_next_token_on_same_line(); // Token::Throw
+        // The keyword may have been found on a following indented line (e.g. `x =⏎  throw y`):
+        // consume_next_token_on_same_line would consume the line break and leave the keyword in place.
+        self.consume_token_with_context(&ExpressionContext::permissive()); // Token::Throw
         let start_span = self.current_span();
 
         if let Some(expression) = self.parse_expression(&ExpressionContext::permissive())? {
@@ -2325,7 +2327,8 @@ impl<'source> Parser<'source> {
     }
 
     fn consume_debug_expression(&mut self) -> Result<AstIndex> {
-        self.consume_next_token_on_same_line(); // Token::Debug
+        // See consume_throw_expression
+        self.consume_token_with_context(&ExpressionContext::permissive()); // Token::Debug
 
         let start_position = self.current_span().start;
 
